@@ -255,13 +255,93 @@ Lemma rebind_main :
 Proof.
   intros r n Hr.
   destruct (walk_scope_stmts_top o W) as [_ WT].
-  pose proof (WT p init [] [] WF_init eq_refl eq_refl eq_refl) as [_ HK].
+  pose proof (WT p init [] [] WF_init eq_refl eq_refl eq_refl) as (_ & HK & _).
   set (stw := stmts_ o W init p) in *.
   pose proof (same_rep_rnlu (S (length (blocks stw))) stw None r n Hr) as HE.
   unfold resolve. fold stw. fold (rep r (resolveNonLocalUses o W (S (length (blocks stw))) stw None) n).
   destruct (HK r n Hr) as [A B]. unfold rebindings. split.
   - intros H. apply HE. apply A. right. exact H.
   - intros H. apply HE in H. apply B in H. destruct H as [[]|H]. exact H.
+Qed.
+
+(* ---- `set` without the Set option ---- *)
+Lemma set_main :
+  (forall n, In (RSetUnsupported, n) (resolve o W p) -> exists u, In u (set_uses o W p) /\ s_n u = n) /\
+  (set_uses o W p <> [] -> exists n, In (RSetUnsupported, n) (resolve o W p)).
+Proof.
+  destruct (walk_scope_stmts_top o W) as [_ WT].
+  pose proof (WT p init [] [] WF_init eq_refl eq_refl eq_refl) as HR.
+  set (stw := stmts_ o W init p) in *.
+  destruct HR as (HR & _ & (Zs & _ & Zc)).
+  destruct HR as (Hw & _ & Hg & Hf & (U & HU & HF) & _).
+  fold (uses_prog o p) in HF, Zs, Zc. set (us := uses_prog o p) in *. simpl in HU, HF.
+  assert (Hc : forall x, smem x (globals stw) || smem x (fileb stw) = smem x (bound_stmts p)).
+  { intros x. destruct (vis_stmts o) as [_ V]. specialize (V p [] [] x). rewrite <- Hg, <- Hf in V. exact V. }
+  set (BL := blocks stw) in *.
+  destruct Hw as (W1 & W2 & W3).
+  assert (Hpar : forall i q ns, nth_error (sk BL) i = Some (Some q, ns) -> q < i).
+  { intros i q ns H. apply sk_nth_inv in H. destruct H as (k & Hk & Hq & _). destruct (W2 i k Hk) as [_ Hlt]. auto. }
+  assert (Hlen : length (sk BL) = length BL) by (unfold sk; apply map_length).
+  assert (BUenv : forall c u b, In (c, u) (buses stw) -> u_env u = Some b -> b < length (sk BL)).
+  { intros c u b Hin He. rewrite HU in Hin. destruct (Forall2_In_l _ _ _ _ HF Hin) as (s & _ & (_ & _ & Hp & _)).
+    simpl in Hp. rewrite He in Hp. destruct (s_rel s); simpl in Hp; [discriminate|].
+    destruct Hp as (b' & k & Hb & _ & Hk & _). inversion Hb; subst. rewrite Hlen. apply nth_error_Some. fold BL. congruence. }
+  assert (BUcont : forall c u i, In (c, u) (buses stw) -> c = Some i -> i < length (sk BL)).
+  { intros c u i Hin He. rewrite HU in Hin. destruct (Forall2_In_l _ _ _ _ HF Hin) as (s & _ & (_ & _ & _ & Hc')).
+    rewrite Hlen. apply Hc'. exact He. }
+  assert (HP0 : PremOK o W init) by (intros H; discriminate).
+  destruct (Zc HP0) as [HPw HCw].
+  assert (HI : InvS o W (sk BL) (globals stw) (fileb stw) (buses stw) (setr stw) stw).
+  { unfold InvS. repeat split; auto.
+    intros i k Hk Hy. destruct (W2 i k Hk) as [Hm _]. rewrite Hm in Hy. discriminate. }
+  destruct (end_passS o W (sk BL) (globals stw) (fileb stw) (buses stw) (fun _ => False) Hpar BUenv BUcont (setr stw) stw HI)
+    as (FI & FM & FQ).
+  assert (Hres : forall n, In (RSetUnsupported, n) (resolve o W p) <->
+                           setr (resolveNonLocalUses o W (S (length (sk BL))) stw None) n).
+  { intros n. unfold resolve. fold stw. fold BL. rewrite Hlen. unfold setr. tauto. }
+  set (stf := resolveNonLocalUses o W (S (length (sk BL))) stw None) in *.
+  assert (Hdef : forall c u s, URel BL 0 None (c, u) s -> s_fl s = None ->
+                  (u_name u = "set"%string /\ Unb (sk BL) "set"%string (u_env u) /\
+                   TUS o W (globals stw) (fileb stw) <->
+                   o_set o = false /\ set_useb W (bound_stmts p) s = true)).
+  { intros c u s (Hn & Hx & Hp & _) Hfl. simpl in *. unfold set_useb, TUS. rewrite Hfl, <- Hx.
+    rewrite !andb_true_iff, !negb_true_iff, String.eqb_eq. change mem with smem. split.
+    - intros (E & HUn & T0 & T1 & T2 & T3 & T4). rewrite E in *.
+      split; auto. repeat split; auto.
+      + apply (Path_Unb BL "set"%string _ _ Hp). exact HUn.
+      + rewrite <- Hc, T1, T2. reflexivity.
+    - intros (T0 & (((E & T3) & T4) & (Hrel & Hcm))). rewrite E in *. split; auto. split.
+      + apply (Path_Unb BL "set"%string _ _ Hp). exact Hrel.
+      + rewrite <- Hc in Hcm. apply orb_false_iff in Hcm. destruct Hcm. repeat split; auto. }
+  assert (Himm : forall n, ImmSet o W n us -> o_set o = false /\ exists u, In u us /\ s_n u = n /\ set_useb W (bound_stmts p) u = true).
+  { intros n (u & g & Hin & Hsn & Hfl & (T0 & E & T1 & T2 & T3)). split; auto. exists u. split; auto. split; auto.
+    unfold set_useb. rewrite Hfl, E in *. change mem with smem in *. rewrite T1, T2, T3. reflexivity. }
+  split.
+  - intros n Hn. apply Hres in Hn. destruct FI as (_ & _ & _ & _ & _ & _ & Snd).
+    destruct (Snd n Hn) as [H0|(c & u & Hin & Hnode & Hname & HUn & HT)].
+    + apply Zs in H0. destruct H0 as [[]|H0]. destruct (Himm n H0) as (Hos & u & Hin & Hsn & Hb).
+      exists u. unfold set_uses. rewrite Hos. split; auto. apply filter_In. auto.
+    + rewrite HU in Hin. destruct (Forall2_In_l _ _ _ _ HF Hin) as (s & Hs & HRel).
+      apply filter_In in Hs. destruct Hs as [Hs Hd]. unfold deferred in Hd.
+      destruct (s_fl s) eqn:Efl; [discriminate|].
+      destruct (proj1 (Hdef c u s HRel Efl) (conj Hname (conj HUn HT))) as [Hos Hb].
+      exists s. unfold set_uses. rewrite Hos. split; [apply filter_In; auto|].
+      destruct HRel as (Hn' & _); simpl in Hn'; congruence.
+  - intros Hne. unfold set_uses in Hne. destruct (o_set o) eqn:Hos; [congruence|].
+    destruct (filter (set_useb W (bound_stmts p)) (uses_prog o p)) as [|u l] eqn:Ef; [congruence|].
+    assert (Hin : In u (filter (set_useb W (bound_stmts p)) us)) by (unfold us; rewrite Ef; left; auto).
+    apply filter_In in Hin. destruct Hin as [Hin Hb].
+    assert (HS : SR stf).
+    { destruct (s_fl u) as [g|] eqn:Efl.
+      - apply FM. apply HCw. exists (s_n u). exists u, g. split; auto. split; auto. split; auto.
+        unfold set_useb in Hb. rewrite Efl in Hb. rewrite !andb_true_iff, !negb_true_iff, String.eqb_eq in Hb.
+        destruct Hb as (((E & T2) & T3) & T1). repeat split; auto.
+      - assert (Hd : In u (filter deferred us)) by (apply filter_In; split; auto; unfold deferred; rewrite Efl; auto).
+        destruct (Forall2_In_r _ _ _ _ HF Hd) as ([c cu] & HinU & HRel).
+        assert (HinB : In (c, cu) (buses stw)) by (rewrite HU; exact HinU).
+        destruct (proj2 (Hdef c cu u HRel Efl) (conj eq_refl Hb)) as (E & HUn & HT).
+        apply (FQ _ HinB); auto. }
+    destruct HS as (m & Hm). exists m. apply Hres. exact Hm.
 Qed.
 
 Lemma undefined_lemma :
